@@ -406,10 +406,11 @@ func suiteDaemon(h *H) {
 		os.Symlink(out, filepath.Join(dir, "labs"))
 		os.Symlink("../../outside/victimfile", filepath.Join(dir, "lfile"))
 		os.Symlink("../..", filepath.Join(dir, "sub", "lup"))
+		os.Symlink("..", filepath.Join(dir, "lpar")) // exactly the directory that holds the module
 		os.Symlink("sub", filepath.Join(dir, "lin"))
 		os.Symlink("../../../outside/cdir", filepath.Join(dir, "sub", "deep", "lcd"))
 	}
-	for _, m := range []string{"ro", "rw", "m", "mx"} {
+	for _, m := range []string{"ro", "rw", "m", "mx", "shared"} {
 		populate(filepath.Join(mods, m))
 	}
 	populated := time.Now()
@@ -421,8 +422,11 @@ func suiteDaemon(h *H) {
 		{Name: "mx", Path: filepath.Join(mods, "mx")},
 		{Name: "fsmod", FS: mapfs},
 		{Name: "deny", Path: filepath.Join(mods, "ro"), ACL: []string{"deny all"}},
+		// one directory exported twice: writable under one name, read-only under another
+		{Name: "sh-rw", Path: filepath.Join(mods, "shared"), Writable: true},
+		{Name: "sh-ro", Path: filepath.Join(mods, "shared")},
 	}
-	dm := []dmod{{"ro", false, false, true}, {"rw", true, false, true}, {"m", false, false, true}, {"mx", false, false, true}, {"fsmod", false, true, true}, {"deny", false, false, false}}
+	dm := []dmod{{"ro", false, false, true}, {"rw", true, false, true}, {"m", false, false, true}, {"mx", false, false, true}, {"fsmod", false, true, true}, {"deny", false, false, false}, {"sh-rw", true, false, true}, {"sh-ro", false, false, true}}
 	var modSpec []string
 	for _, m := range dm {
 		w, k, a := "r", "dir", "allow"
@@ -675,16 +679,33 @@ func suiteDaemon(h *H) {
 			beforeMod = snap(modDir)
 		}
 		beforeOut := canarySnapshot(base, mods)
+		// the directory that holds the module directories, minus the module that is written to: the module's parent
+		// and its siblings are outside the module too
+		beforeSib := canarySnapshot(mods, modDir)
 		res := talk(addr, "@RSYNCD: 27", module, args, "push", refOpts{uid: true, gid: true, links: true, devices: true, specials: true}, withDelete, name, data)
 		time.Sleep(3 * time.Millisecond)
 		v := ""
-		writable := module == "rw"
+		writable := module == "rw" || module == "sh-rw"
 		if !writable {
 			if modDir != "" && snap(modDir) != beforeMod {
 				v = "FAIL[C07] a module that is not writable was modified by an upload request: " + firstDiff(beforeMod, snap(modDir))
 			} else if res.class == "receiver" {
 				v = "FAIL[C07] an upload into a module that is not writable was not refused"
 			}
+		}
+		dry := false
+		for _, f := range flags {
+			if strings.HasPrefix(f, "-") && !strings.HasPrefix(f, "--") && strings.Contains(f, "n") {
+				dry = true
+			}
+		}
+		if dry && writable && modDir != "" && v == "" {
+			if after := snap(modDir); after != beforeMod {
+				v = "FAIL[C10] a dry-run upload changed the module: " + firstDiff(beforeMod, after)
+			}
+		}
+		if afterSib := canarySnapshot(mods, modDir); afterSib != beforeSib && v == "" && modDir != "" {
+			v = "FAIL[C05] an upload changed something beside the module directory (its parent or a sibling module): " + firstDiff(beforeSib, afterSib)
 		}
 		if afterOut := canarySnapshot(base, mods); afterOut != beforeOut && v == "" {
 			v = "FAIL[C05] an upload changed something outside the module directories: " + firstDiff(beforeOut, afterOut)
@@ -716,6 +737,9 @@ func suiteDaemon(h *H) {
 		if res.class == "receiver-refused" || strings.Contains(target, "l") && writable {
 			modelled = false // refusals of the root (symlinks, ..) depend on the file system, not on the handler's decisions
 		}
+		if dry {
+			modelled = false // the scripted client sends file data also in a dry run: how the session ends says nothing
+		}
 		line := op("@RSYNCD: 27", module, args)
 		if !modelled || hostileName != "" {
 			line = "!" + line
@@ -739,8 +763,23 @@ func suiteDaemon(h *H) {
 			pushCase("rw", target, fl, "")
 		}
 	}
+	// one directory exported as a writable and as a read-only module: whatever happened through the writable name,
+	// the read-only name refuses uploads and leaves the directory alone
+	for round := 0; round < 2; round++ {
+		pushCase("sh-rw", "", []string{"-logDtpr"}, "")
+		pushCase("sh-rw", "newsub/", []string{"-logDtpr", "--delete"}, "")
+		for _, target := range []string{"", "newsub/", "other/new/"} {
+			pushCase("sh-ro", target, []string{"-logDtpr"}, "")
+			pushCase("sh-ro", target, []string{"-logDtpr", "--delete"}, "")
+		}
+	}
+	// dry-run uploads to the writable module, into existing and into new subdirectories: nothing changes (C10)
+	for _, target := range []string{"", "sub/", "dry-new/", "dry/deep/er/"} {
+		pushCase("rw", target, []string{"-nlogDtpr"}, "")
+		pushCase("rw", target, []string{"-nr", "--delete"}, "")
+	}
 	// subdirectory arguments of a writable upload that try to leave the module (C05)
-	for _, target := range []string{"lout/", "labs/", "lout", "sub/lup/", "sub/deep/lcd/", "lout//", "lin/", "../outside/new/", "sub/../../outside/new2/", "lout/new3/", "labs/new4/", "sub/lup/outside/new5/", "../", "..", "/../outside/new6/", "lfile/", "sub/deep/lcd/new7/", "lin/../../../outside/new8/"} {
+	for _, target := range []string{"lpar/", "lpar", "lpar/newp/", "lout/", "labs/", "lout", "sub/lup/", "sub/deep/lcd/", "lout//", "lin/", "../outside/new/", "sub/../../outside/new2/", "lout/new3/", "labs/new4/", "sub/lup/outside/new5/", "../", "..", "/../outside/new6/", "lfile/", "sub/deep/lcd/new7/", "lin/../../../outside/new8/"} {
 		for _, fl := range flagSets[:2] {
 			pushCase("rw", target, fl, "")
 		}
